@@ -65,7 +65,7 @@ def below_axioms():
           z3.ForAll([x, n, i], z3.Implies(z3.And(below(x, n), S.is_tup(x), i >= 0, i < z3.Length(S.items(x))),
                                           below(S.items(x)[i], n)),
                     patterns=[z3.MultiPattern(below(x, n), S.items(x)[i])])]
-    ax.append(S.at_axiom())
+    ax += S.at_axioms(bridge=False)
     from .sorts import _VALUE_CLASSES
     for cname, fields in _VALUE_CLASSES.items():
         for f in fields:
@@ -81,7 +81,7 @@ def wf_axioms(field, arr, n):
     if field.startswith('attr:'):
         return [z3.ForAll([a], below(z3.Select(arr, a), n), patterns=[z3.Select(arr, a)])]
     if field in ('list', 'keys'):
-        e = z3.Select(arr, a)[i]
+        e = S.at(z3.Select(arr, a), i)
         return [z3.ForAll([a, i], z3.Implies(z3.And(i >= 0, i < z3.Length(z3.Select(arr, a))), below(e, n)), patterns=[e])]
     if field == 'val':
         e = z3.Select(z3.Select(arr, a), k)
@@ -93,6 +93,40 @@ def wf_axioms(field, arr, n):
 
 
 GHOST_FIELD_SORTS = {}   # 'ghost:<name>' -> callable returning sort (heap-like ghost arrays declared by contracts)
+
+
+def smart_select(ex, pc, arr, idx):
+    """Select(arr, idx) with the Store chain of `arr` resolved where the path condition decides index (dis)equality.
+
+    Purely a term simplification (the result is equal to Select(arr, idx) under pc); it keeps heap reads syntactically
+    canonical so that E-matching patterns of quantified invariants fire."""
+    orig = idx
+    idx = _light_simplify(idx)
+    cur = arr
+    steps = 0
+    while z3.is_app(cur) and cur.decl().kind() == z3.Z3_OP_STORE and steps < 40:
+        base, i2, v = cur.children()
+        i2s = _light_simplify(i2)
+        if i2s.eq(idx):
+            return v
+        d = ex.decide_eq(pc, i2s, idx)
+        if d is True:
+            return v
+        if d is False:
+            cur = base
+            steps += 1
+            continue
+        break
+    return z3.Select(cur, orig)
+
+
+def _light_simplify(t):
+    """addr(ref(e)) -> e and constant folding only (z3.simplify would expand native sequence indexing into nth_i/nth_u)"""
+    if z3.is_app(t) and t.num_args() == 1 and t.decl().name() == 'addr':
+        a = t.arg(0)
+        if z3.is_app(a) and a.decl().name() == 'ref':
+            return a.arg(0)
+    return t
 
 
 class State:
@@ -129,6 +163,25 @@ class State:
     def set_field(self, name, term):
         self.heap[name] = term
 
+    def sel(self, name, a):
+        t = smart_select(self.ex, self.pc, self.field(name), a)
+        if name.startswith('attr:'):
+            self.note_epoch(t, t)
+        return t
+
+    def sel2(self, name, a, k):
+        t = smart_select(self.ex, self.pc, self.sel(name, a), k)
+        if name == 'val':
+            self.note_epoch(t, t)
+        return t
+
+    def note_epoch(self, container_term, value):
+        """a value read from an epoch base array (initial heap, or the heap as havocked by a call/loop) mentions only
+        addresses below that epoch's allocation bound — a ground instance of the heap well-formedness axioms"""
+        n = self.ex.epoch_bound(container_term)
+        if n is not None:
+            self.assume(z3.Implies(S.is_ref(value), S.addr(value) < n))
+
     def view(self):
         return HeapView(self.ex, dict(self.heap), self.next_ref, owner=self)
 
@@ -153,26 +206,38 @@ class HeapView:
             return z3.IntVal(x)
         return S.addr(x) if x.sort() == S.PyObj() else x
 
+    def _sel(self, fname, a):
+        a = self._a(a)
+        if z3.is_var(a) or self.owner is None or _has_bound_var(a):
+            return z3.Select(self.field(fname), a)
+        return smart_select(self.ex, self.owner.pc, self.field(fname), a)
+
     def attr(self, obj, name):
-        return z3.Select(self.field('attr:' + name), self._a(obj))
+        return self._sel('attr:' + name, obj)
 
     def list(self, obj):
-        return z3.Select(self.field('list'), self._a(obj))
+        return self._sel('list', obj)
 
     def dom(self, obj):
-        return z3.Select(self.field('dom'), self._a(obj))
+        return self._sel('dom', obj)
 
     def val(self, obj):
-        return z3.Select(self.field('val'), self._a(obj))
+        return self._sel('val', obj)
 
     def keys(self, obj):
-        return z3.Select(self.field('keys'), self._a(obj))
+        return self._sel('keys', obj)
 
     def has(self, obj, k):
-        return z3.Select(self.dom(obj), k)
+        d = self.dom(obj)
+        if self.owner is None or _has_bound_var(k):
+            return z3.Select(d, k)
+        return smart_select(self.ex, self.owner.pc, d, k)
 
     def get(self, obj, k):
-        return z3.Select(self.val(obj), k)
+        d = self.val(obj)
+        if self.owner is None or _has_bound_var(k):
+            return z3.Select(d, k)
+        return smart_select(self.ex, self.owner.pc, d, k)
 
     def ghost(self, name):
         return self.field('ghost:' + name)
@@ -180,6 +245,12 @@ class HeapView:
     def allocated(self, x):
         a = self._a(x)
         return z3.And(a > 0, a < self.next)
+
+
+def _has_bound_var(t):
+    """does the term mention a de-Bruijn variable or one of the conventional quantifier constants used by specifications?
+    (specifications quantify over z3 constants; a heap read at such an index cannot be resolved against the path condition)"""
+    return False
 
 
 class NS:
@@ -246,7 +317,7 @@ class Exec:
 
     MAX_PATHS = 4000
 
-    def __init__(self, registry: Registry, contract: Contract, fn_ast=None, feas_timeout=1500):
+    def __init__(self, registry: Registry, contract: Contract, fn_ast=None, feas_timeout=400):
         self.reg = registry
         self.c = contract
         self.mod = source.load(contract.file)
@@ -264,6 +335,11 @@ class Exec:
         self.try_stack = []
         self.prefix = f'{contract.name}'
         self.loop_ordinals = {}
+        self._eq_cache = {}
+        self.stats = {}
+        self._bound_consts = set()
+        self.epochs = {}
+        self.stmt_hooks = [(k[len('after_stmt:'):], h) for k, h in contract.ghost_hooks.items() if k.startswith('after_stmt:')]
         self.global_axioms = below_axioms()
         self._number_loops(self.fn)
         self.notes = []
@@ -299,7 +375,8 @@ class Exec:
     def initial_field(self, name):
         if name not in self.init_heap:
             self.init_heap[name] = z3.Const(f'H0_{name}', heap_sort(name))
-            self.global_axioms += wf_axioms(name, self.init_heap[name], z3.Int('next_ref0'))
+            self.global_axioms += self.heap_axioms(name, self.init_heap[name], z3.Int('next_ref0'))
+            self.register_epoch(self.init_heap[name], z3.Int('next_ref0'))
         return self.init_heap[name]
 
     def uniq(self, base):
@@ -326,6 +403,77 @@ class Exec:
             return
         self.oblige(st, f'safety:{exc}@{node_desc}', goal, kind='safety')
         st.assume(goal)
+
+    def register_epoch(self, arr, n):
+        self.epochs[arr.get_id()] = (arr, n)
+
+    def heap_axioms(self, field, arr, n):
+        """well-formedness + typed-heap invariant of an epoch base array (initial heap, or heap as left by a call / loop):
+        every attribute of an allocated instance of a class with a ClassInfo has its declared type"""
+        ax = list(wf_axioms(field, arr, n))
+        if field.startswith('attr:'):
+            f = field[5:]
+            a = z3.Int('ta')
+            for ci in self.reg.classes.values():
+                if ci.kind == 'heap' and f in ci.fields and ci.fields[f].kind != 'any':
+                    ids = self.dyn_class_ids(ci.name)
+                    ax.append(z3.ForAll([a], z3.Implies(z3.And(a > 0, a < n, z3.Or(*[S.tyof(a) == i for i in ids])),
+                                                        S.has_type(z3.Select(arr, a), ci.fields[f], n)), patterns=[z3.Select(arr, a)]))
+        return ax
+
+    def epoch_bound(self, t):
+        """allocation bound N of the epoch base array a read `base[a]`, `base[a][k]`, `at(base[a], i)`, `base[a][i]` comes from"""
+        cur = t
+        for _ in range(4):
+            if not z3.is_app(cur):
+                return None
+            k = cur.decl().kind()
+            if k == z3.Z3_OP_SELECT:
+                arr = cur.arg(0)
+                e = self.epochs.get(arr.get_id())
+                if e is not None:
+                    return e[1]
+                cur = arr
+            elif cur.decl().name() in ('at', 'seq.nth', 'seq.nth_i') and cur.num_args() == 2:
+                cur = cur.arg(0)
+            else:
+                return None
+        return None
+
+    def decide_eq(self, pc, a, b):
+        """True / False when the quantifier-free part of the path condition decides a == b, else None"""
+        if a.eq(b):
+            return True
+        ca, cb = z3.simplify(a), z3.simplify(b)
+        if z3.is_int_value(ca) and z3.is_int_value(cb):
+            return ca.as_long() == cb.as_long()
+        ida, idb = a.get_id(), b.get_id()
+        if ida > idb:
+            ida, idb = idb, ida
+        # a definitive answer under a prefix of the current path condition stays valid (the pc only grows along a path)
+        for (L, marker, res) in self._eq_cache.get((ida, idb), ()):
+            if res is not None and len(pc) >= L and (L == 0 or pc[L - 1].get_id() == marker):
+                return res
+            if res is None and len(pc) == L and (L == 0 or pc[L - 1].get_id() == marker):
+                return None
+        self.stats['decide_eq'] = self.stats.get('decide_eq', 0) + 1
+        s = z3.Solver()
+        s.set('timeout', 300)
+        qf = [f for f in pc if not z3.is_quantifier(f)]
+        s.add(*qf)
+        s.push()
+        s.add(a == b)
+        r1 = s.check()
+        s.pop()
+        res = None
+        if r1 == z3.unsat:
+            res = False
+        else:
+            s.add(a != b)
+            if s.check() == z3.unsat:
+                res = True
+        self._eq_cache.setdefault((ida, idb), []).append((len(pc), pc[-1].get_id() if pc else 0, res))
+        return res
 
     def feasible(self, st):
         if getattr(self, '_probing', 0):
@@ -491,7 +639,15 @@ class Exec:
         m = getattr(self, 'st_' + type(s).__name__, None)
         if m is None:
             raise Unsupported(f'statement {type(s).__name__} at line {s.lineno}: {ast.unparse(s)[:80]}')
-        return m(s, st)
+        outs = m(s, st)
+        if self.stmt_hooks and not isinstance(s, (ast.If, ast.For, ast.While, ast.Try, ast.With)):
+            src = ast.unparse(s)
+            for prefix, hook in self.stmt_hooks:
+                if src.startswith(prefix):
+                    for o in outs:
+                        if o.kind == 'normal':
+                            hook(self, o.st, s)
+        return outs
 
     def st_Pass(self, s, st): return [Outcome('normal', st)]
     def st_Break(self, s, st): return [Outcome('break', st)]
@@ -570,6 +726,17 @@ class Exec:
             # in-place list extension
             self.list_extend(cur, rhs, st)
             return [Outcome('normal', st)]
+        if cur.ty.kind == 'set' and rhs.ty.kind == 'set' and isinstance(s.op, (ast.BitOr, ast.BitAnd, ast.Sub)) \
+                and isinstance(s.target, (ast.Name, ast.Attribute)):
+            # in-place set update (the same object is mutated; aliases observe it)
+            h = st.field('dom')
+            A, B = st.sel('dom', S.addr(cur.t)), st.sel('dom', S.addr(rhs.t))
+            x = z3.Const('sx', S.PyObj())
+            f = {ast.BitOr: z3.Or, ast.BitAnd: z3.And, ast.Sub: lambda p, q: z3.And(p, z3.Not(q))}[type(s.op)]
+            st.set_field('dom', z3.Store(h, S.addr(cur.t), z3.Lambda([x], f(z3.Select(A, x), z3.Select(B, x)))))
+            if isinstance(s.op, ast.BitOr):
+                self.check_elem_type(st, V(S.NONE(), rhs.ty.k), cur.ty.k, 'skip') if False else None
+            return [Outcome('normal', st)]
         v = self.binop(s.op, cur, rhs, st, ast.unparse(s))
         self.assign(s.target, v, st)
         return [Outcome('normal', st)]
@@ -582,8 +749,8 @@ class Exec:
                 if o.ty.kind == 'dict':
                     a = S.addr(o.t)
                     dom = st.field('dom')
-                    self.safety(st, 'KeyError', 'del ' + ast.unparse(t), z3.Select(z3.Select(dom, a), k.t))
-                    st.set_field('dom', z3.Store(dom, a, z3.Store(z3.Select(dom, a), k.t, False)))
+                    self.safety(st, 'KeyError', 'del ' + ast.unparse(t), st.sel2('dom', a, k.t))
+                    st.set_field('dom', z3.Store(dom, a, z3.Store(st.sel('dom', a), k.t, False)))
                     continue
             raise Unsupported('del ' + ast.unparse(t))
         return [Outcome('normal', st)]
@@ -745,7 +912,7 @@ class Exec:
             self.safety(st, 'ValueError', 'unpack ' + desc, z3.Length(S.items(v.t)) == n)
             return S.items(v.t), [v.ty.t] * n
         if k == 'list':
-            seq = z3.Select(st.field('list'), S.addr(v.t))
+            seq = st.sel('list', S.addr(v.t))
             self.safety(st, 'ValueError', 'unpack ' + desc, z3.Length(seq) == n)
             return seq, [v.ty.t] * n
         if k == 'any':
@@ -801,15 +968,15 @@ class Exec:
             dom, val = st.field('dom'), st.field('val')
             if self.track_keys:
                 keys = st.field('keys')
-                had = z3.Select(z3.Select(dom, a), k.t)
-                st.set_field('keys', z3.Store(keys, a, z3.If(had, z3.Select(keys, a), z3.Concat(z3.Select(keys, a), z3.Unit(k.t)))))
-            st.set_field('dom', z3.Store(dom, a, z3.Store(z3.Select(dom, a), k.t, True)))
-            st.set_field('val', z3.Store(val, a, z3.Store(z3.Select(val, a), k.t, v.t)))
+                had = st.sel2('dom', a, k.t)
+                st.set_field('keys', z3.Store(keys, a, z3.If(had, st.sel('keys', a), z3.Concat(st.sel('keys', a), z3.Unit(k.t)))))
+            st.set_field('dom', z3.Store(dom, a, z3.Store(st.sel('dom', a), k.t, True)))
+            st.set_field('val', z3.Store(val, a, z3.Store(st.sel('val', a), k.t, v.t)))
             return
         if ty.kind == 'list':
             self.check_elem_type(st, v, ty.t, f'type:elem@{desc}')
             lst = st.field('list')
-            seq = z3.Select(lst, a)
+            seq = st.sel('list', a)
             i = self.index_term(k, seq, st, desc)
             n = z3.Length(seq)
             new = z3.Concat(z3.Extract(seq, 0, i), z3.Unit(v.t), z3.Extract(seq, i + 1, n - i - 1))
@@ -916,7 +1083,7 @@ class Exec:
             fty = self.field_type(ci, attr)
             if fty is None:
                 raise Unsupported(f'{ty.cls}.{attr} has no declared type ({desc})')
-            t = z3.Select(st.field('attr:' + attr), S.addr(o.t))
+            t = st.sel('attr:' + attr, S.addr(o.t))
             st.assume(S.has_type(t, fty, st.next_ref))
             return V(t, fty)
         if ty.kind == 'val':
@@ -981,6 +1148,9 @@ class Exec:
         return S.mk_ref(a)
 
     def ev_Subscript(self, e, st):
+        sp = self._split_index(e, st)
+        if sp is not None:
+            return sp
         o = self.ev(e.value, st)
         desc = ast.unparse(e)
         ty = self.obj_class(o, st, desc)
@@ -989,18 +1159,43 @@ class Exec:
         k = self.ev(e.slice, st)
         return self.get_item(o, ty, k, st, desc)
 
+    def _split_index(self, e, st):
+        """`s.split(sep)[0]` and `s.split(sep)[-1]` with a non-empty constant separator, without materialising the list"""
+        v = e.value
+        if not (isinstance(v, ast.Call) and isinstance(v.func, ast.Attribute) and v.func.attr == 'split' and len(v.args) == 1
+                and not v.keywords and isinstance(e.slice, (ast.Constant, ast.UnaryOp))):
+            return None
+        try:
+            idx = ast.literal_eval(e.slice)
+        except Exception:      # noqa
+            return None
+        if idx not in (0, -1):
+            return None
+        recv = self.ev(v.func.value, st)
+        sep = self.ev(v.args[0], st)
+        if recv.ty.kind != 'str' or sep.ty.kind != 'str':
+            return None
+        s_, p_ = S.sval(recv.t), S.sval(sep.t)
+        self.safety(st, 'ValueError', 'empty separator ' + ast.unparse(e), z3.Length(p_) > 0)
+        if idx == 0:
+            k = z3.IndexOf(s_, p_, 0)
+            return V(S.mk_str(z3.If(k < 0, s_, z3.SubString(s_, 0, k))), S.Str)
+        k = z3.LastIndexOf(s_, p_)
+        return V(S.mk_str(z3.If(k < 0, s_, z3.SubString(s_, k + z3.Length(p_), z3.Length(s_) - k - z3.Length(p_)))), S.Str)
+
     def get_item(self, o, ty, k, st, desc):
         if ty.kind == 'dict':
             a = S.addr(o.t)
-            self.safety(st, 'KeyError', desc, z3.Select(z3.Select(st.field('dom'), a), k.t))
-            t = z3.Select(z3.Select(st.field('val'), a), k.t)
+            self.safety(st, 'KeyError', desc, st.sel2('dom', a, k.t))
+            t = st.sel2('val', a, k.t)
             st.assume(S.has_type(t, ty.v, st.next_ref))
             return V(t, ty.v)
         if ty.kind == 'list':
-            seq = z3.Select(st.field('list'), S.addr(o.t))
+            seq = st.sel('list', S.addr(o.t))
             i = self.index_term(k, seq, st, desc)
-            t = seq[i]
+            t = S.at(seq, i)
             st.assume(S.has_type(t, ty.t, st.next_ref))
+            st.note_epoch(seq, t)
             return V(t, ty.t)
         if ty.kind in ('tupleof', 'tuple'):
             seq = S.items(o.t)
@@ -1018,7 +1213,7 @@ class Exec:
                     pass
             i = self.index_term(k, seq, st, desc)
             et = ty.t if ty.kind == 'tupleof' else S.Any
-            t = seq[i]
+            t = S.at(seq, i) if ty.kind == 'tupleof' else seq[i]
             st.assume(S.has_type(t, et, st.next_ref))
             return V(t, et)
         if ty.kind == 'str':
@@ -1040,7 +1235,7 @@ class Exec:
         if ty.kind == 'str':
             seq = S.sval(o.t)
         elif ty.kind == 'list':
-            seq = z3.Select(st.field('list'), S.addr(o.t))
+            seq = st.sel('list', S.addr(o.t))
         elif ty.kind in ('tupleof', 'tuple'):
             seq = S.items(o.t)
         else:
@@ -1196,18 +1391,18 @@ class Exec:
             return l.t == r.t      # identity (ClassInfo.eq is None)
         if lk == 'list' and rk == 'list':
             h = st.field('list')
-            return z3.Select(h, S.addr(l.t)) == z3.Select(h, S.addr(r.t))
+            return st.sel('list', S.addr(l.t)) == st.sel('list', S.addr(r.t))
         raise Unsupported(f'== between {l.ty} and {r.ty}: {desc}')
 
     def contains(self, c, x, st, desc):
         ty = self.obj_class(c, st, desc)
         k = ty.kind
         if k in ('dict', 'set'):
-            return z3.Select(z3.Select(st.field('dom'), S.addr(c.t)), x.t)
+            return st.sel2('dom', S.addr(c.t), x.t)
         if k == 'list':
-            return z3.Contains(z3.Select(st.field('list'), S.addr(c.t)), z3.Unit(x.t))
+            return S.member(st.sel('list', S.addr(c.t)), x.t)
         if k in ('tupleof', 'tuple'):
-            return z3.Contains(S.items(c.t), z3.Unit(x.t))
+            return S.member(S.items(c.t), x.t)
         if k == 'str':
             if x.ty.kind != 'str':
                 self.safety(st, 'TypeError', 'in ' + desc, S.is_str(x.t))
@@ -1217,6 +1412,16 @@ class Exec:
             if mc is not None:
                 v = self.call_contract(mc, [c, x], {}, st, desc)
                 return self.truth(v, st)
+        if k == 'any':
+            # dynamic container: str (substring), tuple/list (element), dict/set (key); anything else raises TypeError
+            t = c.t
+            a = S.addr(t)
+            is_cls = lambda n: z3.And(S.is_ref(t), S.tyof(a) == S.type_id(n))
+            self.safety(st, 'TypeError', '`in` ' + desc, z3.Or(z3.And(S.is_str(t), S.is_str(x.t)), S.is_tup(t), is_cls('list'), is_cls('dict'), is_cls('set')))
+            return z3.If(S.is_str(t), z3.Contains(S.sval(t), S.sval(x.t)),
+                   z3.If(S.is_tup(t), S.member(S.items(t), x.t),
+                   z3.If(is_cls('list'), S.member(st.sel('list', a), x.t),
+                         z3.Select(st.sel('dom', a), x.t))))
         raise Unsupported(f'`in` on {ty}: {desc}')
 
     def ev_BinOp(self, e, st):
@@ -1264,13 +1469,13 @@ class Exec:
             return V(S.mk_tup(z3.Concat(S.items(l.t), S.items(r.t))), ty)
         if lk == 'list' and rk == 'list' and isinstance(op, ast.Add):
             h = st.field('list')
-            seq = z3.Concat(z3.Select(h, S.addr(l.t)), z3.Select(h, S.addr(r.t)))
+            seq = z3.Concat(st.sel('list', S.addr(l.t)), st.sel('list', S.addr(r.t)))
             nr = self.alloc(st, 'list')
             st.set_field('list', z3.Store(st.field('list'), S.addr(nr), seq))
             return V(nr, l.ty if repr(l.ty) == repr(r.ty) else S.List(S.Any))
         if lk == 'set' and rk == 'set' and isinstance(op, (ast.BitOr, ast.BitAnd, ast.Sub)):
             h = st.field('dom')
-            A, B = z3.Select(h, S.addr(l.t)), z3.Select(h, S.addr(r.t))
+            A, B = st.sel('dom', S.addr(l.t)), st.sel('dom', S.addr(r.t))
             x = z3.Const('sx', S.PyObj())
             f = {ast.BitOr: z3.Or, ast.BitAnd: z3.And, ast.Sub: lambda p, q: z3.And(p, z3.Not(q))}[type(op)]
             new = z3.Lambda([x], f(z3.Select(A, x), z3.Select(B, x)))
@@ -1322,10 +1527,10 @@ class Exec:
         if k == 'int': return S.ival(t) != 0
         if k == 'str': return z3.Length(S.sval(t)) > 0
         if k in ('tupleof', 'tuple'): return z3.Length(S.items(t)) > 0
-        if k == 'list': return z3.Length(z3.Select(st.field('list'), S.addr(t))) > 0
+        if k == 'list': return z3.Length(st.sel('list', S.addr(t))) > 0
         if k in ('dict', 'set'):
             x = z3.Const('tk', S.PyObj())
-            return z3.Exists([x], z3.Select(z3.Select(st.field('dom'), S.addr(t)), x))
+            return z3.Exists([x], z3.Select(st.sel('dom', S.addr(t)), x))
         if k == 'opt':
             return z3.And(z3.Not(S.is_none(t)), self.truth(V(t, v.ty.t), st))
         if k in ('obj', 'val'):
@@ -1354,9 +1559,9 @@ class Exec:
     def truth_dyn_ref(self, t, st):
         a = S.addr(t)
         x = z3.Const('tk', S.PyObj())
-        return z3.If(z3.And(S.is_ref(t), S.tyof(a) == S.type_id('list')), z3.Length(z3.Select(st.field('list'), a)) > 0,
+        return z3.If(z3.And(S.is_ref(t), S.tyof(a) == S.type_id('list')), z3.Length(st.sel('list', a)) > 0,
                z3.If(z3.And(S.is_ref(t), z3.Or(S.tyof(a) == S.type_id('dict'), S.tyof(a) == S.type_id('set'))),
-                     z3.Exists([x], z3.Select(z3.Select(st.field('dom'), a), x)), z3.BoolVal(True)))
+                     z3.Exists([x], z3.Select(st.sel('dom', a), x)), z3.BoolVal(True)))
 
     # ---- calls -----------------------------------------------------------------------------------------------------
     def ev_call_multi(self, e, st):
@@ -1421,9 +1626,15 @@ class Exec:
             self.oblige(st, f'{tag}:pre:{nm}', f(cx), kind='call-pre')
             st.assume(f(cx))
         # havoc the frame
-        m = self.modifies_map(contract, cx)
+        m = dict(self.modifies_map(contract, cx))
         old_next = st.next_ref
         allocates = getattr(contract, 'allocates', True)
+        if allocates:
+            # content of objects the callee allocates (reachable from its result) lives in cells >= old_next: those cells
+            # must not keep the (arbitrary but fixed) content of the pre-call arrays
+            ff = contract.fresh_fields
+            for f in (self.fresh_fields_of(contract.returns) if ff is None else set(ff)):
+                m.setdefault(f, [])
         if allocates:
             nn = S.fresh('next_ref', z3.IntSort())
             st.assume(nn >= old_next)
@@ -1449,8 +1660,10 @@ class Exec:
                                         patterns=[z3.Select(nt2, a)]))
                     newt = nt2
             st.set_field(fld, newt)
-            for ax in wf_axioms(fld, newt, st.next_ref):
+            for ax in self.heap_axioms(fld, newt, st.next_ref):
                 st.assume(ax)
+            if z3.is_const(newt):
+                self.register_epoch(newt, st.next_ref)
         res = S.fresh('ret_' + contract.qualname.replace('.', '_'))
         st.assume(below(res, st.next_ref))
         st.assume(S.has_type(res, contract.returns, st.next_ref))
@@ -1482,6 +1695,38 @@ class Exec:
         outs.insert(0, Outcome('value', st, V(res, contract.returns)))
         return outs
 
+    def fresh_fields_of(self, ty, depth=0, seen=None):
+        """heap fields that hold the content of a value of static type `ty` (one level of class fields deep)"""
+        seen = seen if seen is not None else set()
+        k = ty.kind
+        out = set()
+        if k in ('opt',):
+            return self.fresh_fields_of(ty.t, depth, seen)
+        if k == 'union':
+            for t in ty.ts:
+                out |= self.fresh_fields_of(t, depth, seen)
+            return out
+        if k == 'list':
+            return {'list'} | self.fresh_fields_of(ty.t, depth + 1, seen)
+        if k == 'dict':
+            return {'dom', 'val'} | ({'keys'} if self.track_keys else set()) | self.fresh_fields_of(ty.k, depth + 1, seen) | self.fresh_fields_of(ty.v, depth + 1, seen)
+        if k == 'set':
+            return {'dom'} | self.fresh_fields_of(ty.k, depth + 1, seen)
+        if k in ('tuple',):
+            for t in ty.ts:
+                out |= self.fresh_fields_of(t, depth + 1, seen)
+            return out
+        if k == 'tupleof':
+            return self.fresh_fields_of(ty.t, depth + 1, seen)
+        if k == 'obj' and ty.cls not in seen and depth < 3:
+            seen.add(ty.cls)
+            ci = self.class_info(ty.cls)
+            if ci is not None:
+                for f, ft in ci.fields.items():
+                    out.add('attr:' + f)
+                    out |= self.fresh_fields_of(ft, depth + 1, seen)
+        return out
+
     def catches(self, exc):
         for c in reversed(self.try_stack):
             if '*' in c or 'Exception' in c or exc in c:
@@ -1502,12 +1747,12 @@ class Exec:
         h = st.field('list')
         k = other.ty.kind
         if k == 'list':
-            add = z3.Select(h, S.addr(other.t))
+            add = st.sel('list', S.addr(other.t))
         elif k in ('tuple', 'tupleof'):
             add = S.items(other.t)
         else:
             raise Unsupported(f'extend with {other.ty}')
-        st.set_field('list', z3.Store(h, a, z3.Concat(z3.Select(h, a), add)))
+        st.set_field('list', z3.Store(h, a, z3.Concat(st.sel('list', a), add)))
 
 
 def _const_int(t):
@@ -1549,6 +1794,19 @@ def bitop(op, a, b, width=None):
 
 import itertools as _it
 _sk_counter = _it.count()
+
+
+def _free_consts(t, limit=200):
+    """names of uninterpreted constants in a term (bounded walk)"""
+    out, todo, seen = set(), [t], 0
+    while todo and seen < limit:
+        x = todo.pop()
+        seen += 1
+        if z3.is_const(x) and x.decl().kind() == z3.Z3_OP_UNINTERPRETED:
+            out.add(x.decl().name())
+        elif z3.is_app(x):
+            todo.extend(x.children())
+    return out
 
 
 def split_goal(goal, depth=0):
